@@ -1,1 +1,8 @@
-
+import Props.GenTie.Params
+import Props.GenTie.Subsidy
+import Props.GenTie.Target
+import Props.GenTie.Heights
+import Props.C07
+import Props.C11
+import Props.C16
+import Props.C16Code
